@@ -311,6 +311,7 @@ struct Cfg {
     stack: Option<usize>,
     affinity: bool,
     capacity: Option<u32>,
+    poll_driver: bool,
 }
 
 fn parse_cfg(ws: &[&str]) -> Option<Cfg> {
@@ -323,7 +324,7 @@ fn parse_cfg(ws: &[&str]) -> Option<Cfg> {
     if w == 0 || w > MAX_WORKERS {
         return None;
     }
-    let mut cfg = Cfg { w, conc, stack: None, affinity: false, capacity: None };
+    let mut cfg = Cfg { w, conc, stack: None, affinity: false, capacity: None, poll_driver: false };
     for o in &ws[2..] {
         if let Some(v) = o.strip_prefix("stack=") {
             cfg.stack = v.parse().ok();
@@ -331,6 +332,8 @@ fn parse_cfg(ws: &[&str]) -> Option<Cfg> {
             cfg.affinity = true;
         } else if let Some(v) = o.strip_prefix("cap=") {
             cfg.capacity = v.parse().ok();
+        } else if *o == "drv=poll" {
+            cfg.poll_driver = true;
         }
     }
     Some(cfg)
@@ -350,26 +353,48 @@ fn build(cfg: &Cfg, ctx: &Arc<Ctx>) -> std::io::Result<Dispatcher> {
         let n = thread::available_parallelism().map(|n| n.get()).unwrap_or(1);
         b = b.thread_affinity(move |_| (0..n).collect());
     }
-    if let Some(c) = cfg.capacity {
+    if cfg.capacity.is_some() || cfg.poll_driver {
         let mut pb = ProactorBuilder::new();
-        pb.capacity(c);
+        if let Some(c) = cfg.capacity {
+            pb.capacity(c);
+        }
+        if cfg.poll_driver {
+            pb.driver_type(compio_driver::DriverType::Poll);
+        }
         b = b.proactor_builder(pb);
     }
     b.build()
 }
 
-/// worker threads of this dispatcher that still exist (`/proc/self/task/*/comm`)
+/// worker threads of this dispatcher that still exist (`/proc/self/task/*/comm`).
+///
+/// `pthread_join` returns as soon as the kernel has cleared the thread's tid futex, a moment before the
+/// task disappears from /proc: entries in state Z/X do not count, and a live-looking entry is re-checked
+/// for up to 50 ms (a worker that is really still running stays).
 fn alive_workers(ctx: &Ctx) -> usize {
     let prefix = ctx.prefix();
-    let mut n = 0;
-    if let Ok(rd) = std::fs::read_dir("/proc/self/task") {
-        for e in rd.flatten() {
-            if let Ok(comm) = std::fs::read_to_string(e.path().join("comm")) {
-                if comm.trim_end().starts_with(&prefix) {
+    let scan = || {
+        let mut n = 0;
+        if let Ok(rd) = std::fs::read_dir("/proc/self/task") {
+            for e in rd.flatten() {
+                let Ok(comm) = std::fs::read_to_string(e.path().join("comm")) else { continue };
+                if !comm.trim_end().starts_with(&prefix) {
+                    continue;
+                }
+                let Ok(stat) = std::fs::read_to_string(e.path().join("stat")) else { continue };
+                let state = stat.rsplit_once(") ").and_then(|(_, r)| r.chars().next()).unwrap_or('?');
+                if state != 'Z' && state != 'X' {
                     n += 1;
                 }
             }
         }
+        n
+    };
+    let mut n = scan();
+    let t0 = Instant::now();
+    while n != 0 && t0.elapsed() < Duration::from_millis(50) {
+        thread::sleep(Duration::from_micros(500));
+        n = scan();
     }
     n
 }
@@ -1050,8 +1075,12 @@ fn gen_cfg(rng: &mut Rng) -> (usize, bool, String) {
     if rng.chance(1, 6) {
         s.push_str(" aff");
     }
-    if rng.chance(1, 2) {
-        s.push_str(&format!(" cap={}", rng.pick(&[8u32, 32, 64, 256])));
+    // (the default 1024-entry ring costs tens of ms per worker to set up and tear down: rarely)
+    if !rng.chance(1, 40) {
+        s.push_str(&format!(" cap={}", rng.pick(&[8u32, 16, 32, 64])));
+    }
+    if rng.chance(1, 4) {
+        s.push_str(" drv=poll");
     }
     (w, conc, s)
 }
@@ -1246,6 +1275,11 @@ fn gen_det(rng: &mut Rng) -> Vec<String> {
 }
 
 fn gen_conc(rt: &Runtime, rng: &mut Rng, big: bool) -> Vec<String> {
+    let (cfg, plan, join_at) = plan_conc(rng, big);
+    vec![run_conc(rt, &cfg, plan, join_at)]
+}
+
+fn plan_conc(rng: &mut Rng, big: bool) -> (Cfg, Vec<Vec<PlanTask>>, JoinAt) {
     let (w, conc, cfgline) = gen_cfg(rng);
     let cfgws: Vec<&str> = cfgline.split_whitespace().skip(1).collect();
     let cfg = parse_cfg(&cfgws).unwrap();
@@ -1297,27 +1331,55 @@ fn gen_conc(rt: &Runtime, rng: &mut Rng, big: bool) -> Vec<String> {
         }
         plan.push(v);
     }
-    vec![run_conc(rt, &cfg, plan, join_at)]
+    (cfg, plan, join_at)
+}
+
+/// the conc runs are independent of each other: plan them from the one `Rng` (so the plans depend on the
+/// seed only), run them on a few threads, each with its own harness runtime
+fn gen_conc_all(rng: &mut Rng, n: usize, n_big: usize) -> Vec<Case> {
+    let mut jobs = vec![];
+    for i in 0..n + n_big {
+        let big = i >= n;
+        let name = if big { format!("conc-big/{}", i - n) } else { format!("conc/{i}") };
+        jobs.push((name, plan_conc(rng, big)));
+    }
+    let jobs = Arc::new(Mutex::new(jobs.into_iter().enumerate().collect::<Vec<_>>()));
+    let done: Arc<Mutex<Vec<(usize, Case)>>> = Arc::new(Mutex::new(vec![]));
+    let workers: Vec<_> = (0..4)
+        .map(|_| {
+            let jobs = jobs.clone();
+            let done = done.clone();
+            thread::spawn(move || {
+                let rt = Runtime::new().expect("harness runtime");
+                loop {
+                    let job = jobs.lock().unwrap().pop();
+                    let Some((i, (name, (cfg, plan, join_at)))) = job else { break };
+                    let line = run_conc(&rt, &cfg, plan, join_at);
+                    done.lock().unwrap().push((i, Case { name, lines: vec![line] }));
+                }
+            })
+        })
+        .collect();
+    for w in workers {
+        w.join().expect("conc generator thread");
+    }
+    let mut done = std::mem::take(&mut *done.lock().unwrap());
+    done.sort_by_key(|(i, _)| *i);
+    done.into_iter().map(|(_, c)| c).collect()
 }
 
 fn main() {
     // worker-thread and task panics are part of the scenarios
     std::panic::set_hook(Box::new(|_| {}));
     let rt = Runtime::new().expect("harness runtime");
-    let rt2 = Runtime::new().expect("harness runtime");
     run_harness(
         |tier, rng| {
-            let (n_det, n_conc, n_big) = if tier == "thorough" { (12000, 6000, 300) } else { (1500, 700, 30) };
+            let (n_det, n_conc, n_big) = if tier == "thorough" { (5000, 3000, 150) } else { (400, 240, 10) };
             let mut cases = vec![];
             for i in 0..n_det {
                 cases.push(Case { name: format!("det/{i}"), lines: gen_det(rng) });
             }
-            for i in 0..n_conc {
-                cases.push(Case { name: format!("conc/{i}"), lines: gen_conc(&rt2, rng, false) });
-            }
-            for i in 0..n_big {
-                cases.push(Case { name: format!("conc-big/{i}"), lines: gen_conc(&rt2, rng, true) });
-            }
+            cases.extend(gen_conc_all(rng, n_conc, n_big));
             cases
         },
         |case| exec_det(&rt, case),
